@@ -90,7 +90,9 @@ struct delay {
         int mod;
         int res;
         int action;
+        atomic_int left; /* how many more matching events are delayed */
 };
+static atomic_long delay_budget_us = 600000; /* total injected delay per process */
 static atomic_long ev_seq;
 static pthread_mutex_t ev_mu = PTHREAD_MUTEX_INITIALIZER;
 static struct event *evs;
@@ -138,23 +140,15 @@ static long obj_id(const void *p)
 
 static void do_delay(int action)
 {
-        switch (action) {
-        case 1:
+        long us = action == 2 ? 50 : action == 3 ? 1000 : action == 4 ? 10000 : 0;
+        if (action == 1) {
                 for (int i = 0; i < 50; i++) {
                         sched_yield();
                 }
-                break;
-        case 2:
-                usleep(50);
-                break;
-        case 3:
-                usleep(2000);
-                break;
-        case 4:
-                usleep(20000);
-                break;
-        default:
-                break;
+                return;
+        }
+        if (us > 0 && atomic_fetch_sub(&delay_budget_us, us) > 0) {
+                usleep(us);
         }
 }
 
@@ -230,7 +224,8 @@ static void hook(int ev, const void *a, const void *b, int i, int j, int k)
                         key = m->starta + m->enda_2 + m->startb + m->len_a;
                 }
                 for (int d = 0; d < n_delays; d++) {
-                        if (delays[d].ev == ev && (key % delays[d].mod) == delays[d].res) {
+                        if (delays[d].ev == ev && (key % delays[d].mod) == delays[d].res &&
+                            atomic_fetch_sub(&delays[d].left, 1) > 0) {
                                 do_delay(delays[d].action);
                         }
                 }
@@ -544,6 +539,7 @@ int main(int argc, char **argv)
                                 delays[n_delays].mod = atoi(tok[2]) > 0 ? atoi(tok[2]) : 1;
                                 delays[n_delays].res = atoi(tok[3]);
                                 delays[n_delays].action = atoi(tok[4]);
+                                atomic_store(&delays[n_delays].left, nt >= 6 ? atoi(tok[5]) : 20);
                                 n_delays++;
                         }
                         kalign_verif_hook = hook;
